@@ -86,6 +86,13 @@ func c23IntModel(t rc.TLV, tag byte) (*big.Int, bool, string) {
 func c23CheckAll(in []byte, std bool) *c23Result {
 	res := &c23Result{}
 	t := rc.ReadTLV(in)
+	// Every destination is pre-loaded with junk: what a reader returns must depend on the input alone.
+	// The stale value is a function of the input (so that replay is exact): 0, 1, all-ones or a bit pattern.
+	h := uint64(len(in)) * 0x9e3779b97f4a7c15
+	for _, x := range in[:min(len(in), 16)] {
+		h = (h ^ uint64(x)) * 0x100000001b3
+	}
+	junk := []uint64{0, 1, ^uint64(0), 0xa5a5a5a5a5a5a5a5, 0x5a5a5a5a5a5a5a5b, h | 1}[(h>>33)%6]
 	str := func() cryptobyte.String { return cryptobyte.String(in) }
 
 	// ---- untyped element readers
@@ -129,7 +136,7 @@ func c23CheckAll(in []byte, std bool) *c23Result {
 			res.fail("ReadASN1Element bytes differ")
 		}
 		s = str()
-		var ob []byte
+		ob := []byte("junk")
 		if res.acc(fmt.Sprintf("ReadASN1Bytes(%#02x)", q), s.ReadASN1Bytes(&ob, tag), want, s, t.Rest, why) && !bytes.Equal(ob, t.Content) {
 			res.fail("ReadASN1Bytes content differs")
 		}
@@ -167,7 +174,7 @@ func c23CheckAll(in []byte, std bool) *c23Result {
 		{
 			v, vok, vwhy := c23IntModel(t, q)
 			wantI := vok && c23FitsSigned(v, 64)
-			var o int64
+			o := int64(junk)
 			s = str()
 			if res.acc(fmt.Sprintf("ReadASN1Int64WithTag(%#02x)", q), s.ReadASN1Int64WithTag(&o, tag), wantI, s, t.Rest, vwhy) && o != v.Int64() {
 				res.fail("ReadASN1Int64WithTag value %d, encoded %v", o, v)
@@ -194,37 +201,49 @@ func c23CheckAll(in []byte, std bool) *c23Result {
 				res.fail("ReadASN1Integer(*%s) value %d, encoded %v", name, got, iv)
 			}
 		}
-		chkS("int8", 8, func(s *cryptobyte.String) (bool, int64) { var o int8; ok := s.ReadASN1Integer(&o); return ok, int64(o) })
+		chkS("int8", 8, func(s *cryptobyte.String) (bool, int64) {
+			o := int8(junk)
+			ok := s.ReadASN1Integer(&o)
+			return ok, int64(o)
+		})
 		chkS("int16", 16, func(s *cryptobyte.String) (bool, int64) {
-			var o int16
+			o := int16(junk)
 			ok := s.ReadASN1Integer(&o)
 			return ok, int64(o)
 		})
 		chkS("int32", 32, func(s *cryptobyte.String) (bool, int64) {
-			var o int32
+			o := int32(junk)
 			ok := s.ReadASN1Integer(&o)
 			return ok, int64(o)
 		})
 		chkS("int64", 64, func(s *cryptobyte.String) (bool, int64) { var o int64; ok := s.ReadASN1Integer(&o); return ok, o })
-		chkS("int", strconv.IntSize, func(s *cryptobyte.String) (bool, int64) { var o int; ok := s.ReadASN1Integer(&o); return ok, int64(o) })
+		chkS("int", strconv.IntSize, func(s *cryptobyte.String) (bool, int64) {
+			o := int(junk)
+			ok := s.ReadASN1Integer(&o)
+			return ok, int64(o)
+		})
 		chkU("uint8", 8, func(s *cryptobyte.String) (bool, uint64) {
-			var o uint8
+			o := uint8(junk)
 			ok := s.ReadASN1Integer(&o)
 			return ok, uint64(o)
 		})
 		chkU("uint16", 16, func(s *cryptobyte.String) (bool, uint64) {
-			var o uint16
+			o := uint16(junk)
 			ok := s.ReadASN1Integer(&o)
 			return ok, uint64(o)
 		})
 		chkU("uint32", 32, func(s *cryptobyte.String) (bool, uint64) {
-			var o uint32
+			o := uint32(junk)
 			ok := s.ReadASN1Integer(&o)
 			return ok, uint64(o)
 		})
-		chkU("uint64", 64, func(s *cryptobyte.String) (bool, uint64) { var o uint64; ok := s.ReadASN1Integer(&o); return ok, o })
+		chkU("uint64", 64, func(s *cryptobyte.String) (bool, uint64) {
+			o := uint64(junk)
+			ok := s.ReadASN1Integer(&o)
+			return ok, o
+		})
 		chkU("uint", strconv.IntSize, func(s *cryptobyte.String) (bool, uint64) {
-			var o uint
+			o := uint(junk)
 			ok := s.ReadASN1Integer(&o)
 			return ok, uint64(o)
 		})
@@ -234,7 +253,7 @@ func c23CheckAll(in []byte, std bool) *c23Result {
 			res.fail("ReadASN1Integer(*big.Int) value %v, encoded %v", ob, iv)
 		}
 		s = str()
-		var raw []byte
+		raw := []byte("junk")
 		if res.acc("ReadASN1Integer(*[]byte)", s.ReadASN1Integer(&raw), iok && iv.Sign() >= 0, s, t.Rest, iwhy+"/negative") {
 			want := iv.Bytes()
 			if len(want) == 0 {
@@ -248,7 +267,7 @@ func c23CheckAll(in []byte, std bool) *c23Result {
 	// ---- ENUMERATED
 	ev_, eok, ewhy := c23IntModel(t, rc.TagEnum)
 	{
-		var o int
+		o := int(junk)
 		s := str()
 		if res.acc("ReadASN1Enum", s.ReadASN1Enum(&o), eok && c23FitsSigned(ev_, strconv.IntSize), s, t.Rest, ewhy+"/range") && int64(o) != ev_.Int64() {
 			res.fail("ReadASN1Enum value %d, encoded %v", o, ev_)
@@ -263,7 +282,7 @@ func c23CheckAll(in []byte, std bool) *c23Result {
 		bwhy = "tag"
 	}
 	{
-		var o bool
+		o := junk&1 == 1
 		s := str()
 		if res.acc("ReadASN1Boolean", s.ReadASN1Boolean(&o), bok, s, t.Rest, bwhy) && o != bv {
 			res.fail("ReadASN1Boolean value %v, encoded %v", o, bv)
@@ -287,7 +306,7 @@ func c23CheckAll(in []byte, std bool) *c23Result {
 		oidWhy = "tag"
 	}
 	{
-		var o encasn1.ObjectIdentifier
+		o := encasn1.ObjectIdentifier{9, 9, 9, 9, 9, 9, 9, 9, 9, 9, 9, 9}
 		s := str()
 		if res.acc("ReadASN1ObjectIdentifier", s.ReadASN1ObjectIdentifier(&o), oidOK, s, t.Rest, oidWhy) {
 			if len(o) != len(oidArcs) {
@@ -312,14 +331,14 @@ func c23CheckAll(in []byte, std bool) *c23Result {
 		bsWhy = "tag"
 	}
 	{
-		var o encasn1.BitString
+		o := encasn1.BitString{Bytes: []byte("junk"), BitLength: 29}
 		s := str()
 		if res.acc("ReadASN1BitString", s.ReadASN1BitString(&o), bsOK, s, t.Rest, bsWhy) {
 			if !bytes.Equal(o.Bytes, bsData) || o.BitLength != 8*len(bsData)-bsUnused {
 				res.fail("ReadASN1BitString gave %x/%d bits, encoded %x with %d unused bits", o.Bytes, o.BitLength, bsData, bsUnused)
 			}
 		}
-		var ob []byte
+		ob := []byte("junk")
 		s = str()
 		if res.acc("ReadASN1BitStringAsBytes", s.ReadASN1BitStringAsBytes(&ob), bsOK && bsUnused == 0, s, t.Rest, bsWhy+"/unused bits") && !bytes.Equal(ob, bsData) {
 			res.fail("ReadASN1BitStringAsBytes gave %x, encoded %x", ob, bsData)
@@ -335,7 +354,7 @@ func c23CheckAll(in []byte, std bool) *c23Result {
 	if genTag {
 		gen = rc.ParseGeneralizedTime(t.Content)
 	}
-	var cbUTC, cbGen time.Time
+	cbUTC, cbGen := time.Unix(12345, 678), time.Unix(-98765, 4321).In(time.FixedZone("J", 3*3600))
 	var cbUTCok, cbGenok bool
 	{
 		s := str()
@@ -539,7 +558,7 @@ func c23CheckOptional(res *c23Result, in []byte, t rc.TLV, q byte) {
 	{
 		iv, iok, iwhy := c23IntModel(inner, rc.TagInteger)
 		s := cryptobyte.String(in)
-		var o int64
+		o := int64(0x5a5a5a5a5a5a5a5a)
 		ok := s.ReadOptionalASN1Integer(&o, tag, int64(-4242))
 		switch {
 		case !present:
@@ -553,7 +572,21 @@ func c23CheckOptional(res *c23Result, in []byte, t rc.TLV, q byte) {
 			}
 		}
 		s = cryptobyte.String(in)
-		ob := new(big.Int)
+		ou := uint64(0xa5a5a5a5a5a5a5a5)
+		ok = s.ReadOptionalASN1Integer(&ou, tag, uint64(4243))
+		switch {
+		case !present:
+			if !ok || ou != 4243 || !bytes.Equal(s, in) {
+				res.fail("ReadOptionalASN1Integer(%#02x,*uint64) on an absent element: ok=%v out=%d", q, ok, ou)
+			}
+		default:
+			want := t.OK && innerWhole && iok && c23FitsUnsigned(iv, 64)
+			if res.acc(fmt.Sprintf("ReadOptionalASN1Integer(%#02x,*uint64)", q), ok, want, s, t.Rest, "outer: "+t.Why+" inner: "+inner.Why+" "+iwhy) && ou != iv.Uint64() {
+				res.fail("ReadOptionalASN1Integer(*uint64) value %d, encoded %v", ou, iv)
+			}
+		}
+		s = cryptobyte.String(in)
+		ob := big.NewInt(-123456789)
 		def := big.NewInt(991)
 		ok = s.ReadOptionalASN1Integer(ob, tag, def)
 		switch {
